@@ -203,6 +203,21 @@ ev_send(int i, int blocking)
 	env_aio_submit(&uaio_at(i));
 	resp0_ctx_send(&sock.ctx, &uaio_at(i));
 	kquiesce();
+#ifdef KF_RESP_NONBLOCK_EAGAIN
+	/* known finding F7 excluded: resp0_ctx_send starts the aio first, so a
+	 * non-blocking reply is refused with NNG_ETIMEDOUT (-> NNG_EAGAIN) in every
+	 * state.  With the finding excluded the refusal must at least be clean:
+	 * nothing sent, reply left with the caller, the pending survey still
+	 * answerable. */
+	if (!blocking) {
+		CHECK(KDONE(i) && KRESULT(i) == NNG_ETIMEDOUT, "known finding F7: non-blocking respondent send reports EAGAIN");
+		for (int p = 0; p < MAXP; p++)
+			CHECK(kpipe[p].sends == sends0[p], "a refused reply is not sent anywhere");
+		CHECK(nni_aio_get_msg(&uaio_at(i)) == umsg[i], "C03: failed send leaves the reply with the caller");
+		monitor();
+		return;
+	}
+#endif
 	if (!pending) {
 		CHECK(KDONE(i) && KRESULT(i) == NNG_ESTATE, "send without a request to answer (or a second reply) fails with ESTATE");
 		for (int p = 0; p < MAXP; p++)
